@@ -22,3 +22,22 @@ fn rollback_after_vacuum_stays_invisible_after_reopen() {
     let n = db.execute("SELECT COUNT(*) FROM t").unwrap().into_rows().unwrap().first().unwrap()[0].as_big_int().unwrap().value();
     assert_eq!(n, 1, "rows of a rolled-back session are visible after reopen");
 }
+
+#[test]
+fn rolled_back_work_stays_invisible_to_readers_that_start_after_a_younger_commit() {
+    let dir = tempfile::TempDir::new().unwrap();
+    let db = Database::create(dir.path().join("t.db"), DBConfig::default()).unwrap();
+    db.execute("CREATE TABLE t (id BIGINT, v INT)").unwrap();
+    db.execute("INSERT INTO t VALUES (1, 10)").unwrap();
+    {
+        let mut w = db.session().unwrap();
+        w.execute("INSERT INTO t VALUES (2, 20)").unwrap();
+        w.execute("DELETE FROM t WHERE id = 1").unwrap();
+        w.abort_transaction().unwrap();
+    }
+    db.execute("INSERT INTO t VALUES (3, 30)").unwrap(); // a younger transaction commits
+    let rows = db.execute("SELECT id FROM t").unwrap().into_rows().unwrap();
+    let mut ids: Vec<i64> = rows.iterrows().map(|r| r[0].as_big_int().unwrap().value()).collect();
+    ids.sort();
+    assert_eq!(ids, vec![1, 3], "a reader that starts after a younger commit sees rolled-back work");
+}
